@@ -1,7 +1,9 @@
 /-
 C04 — a keyed write or removal interrupted by a crash is all-or-nothing.
 
-Two layers.
+Two layers, and their composition (last section: `insert_crash_lookup`, `remove_crash_lookup`,
+`keyed_write_crash_lookup` and the `_fault_` versions — from the filesystem a kill leaves behind
+to what every lookup decodes from it, for the concrete codec and any hash function).
 (1) Program level (`insert_crash_bucket`, from the demonic wp of `Lemmas/Bucket`): killed at any
     call of an index insertion / removal (a tombstone insertion), with the record append torn at
     any byte — or failing after any partial write — the key's bucket file is the old bytes followed
@@ -124,7 +126,7 @@ theorem insert_crash_bucket (key : Bytes) (o : WriteOpts) (b0 : Bytes) (fs : FS)
     (hb : BucketIs fs (bucketPath cfg cache key) b0) (n t : Nat) :
     ∃ tm k, BucketIs (crash env (insert cfg cache key o) fs n t) (bucketPath cfg cache key)
       (b0 ++ ((codec cfg).frame (mkRec key o tm)).take k) :=
-  wpD_crash (insert_bucket_wp cfg env cache key o b0 hb) n t
+  (wpD_crash (insert_bucket_wp cfg env cache key o b0 hb) n t).bucket
 
 /-- The same under every fault plan (any call failing, the append failing after any partial
 write), with the success case: on `ok` the bucket is the old bytes plus the whole frame. -/
@@ -137,7 +139,8 @@ theorem insert_fault_bucket (key : Bytes) (o : WriteOpts) (b0 : Bytes) (fs : FS)
       (runFault env plan (insert cfg cache key o) fs 0).2.1.get (bucketPath cfg cache key) =
         some (.file (b0 ++ (codec cfg).frame (mkRec key o tm))) ∧
       ((∀ t, o.time = some t → t ≤ timeMax) → tm ≤ timeMax)) :=
-  wpD_fault (insert_bucket_wp cfg env cache key o b0 hb) plan 0
+  ⟨(wpD_fault (insert_bucket_wp cfg env cache key o b0 hb) plan 0).1.bucket,
+   (wpD_fault (insert_bucket_wp cfg env cache key o b0 hb) plan 0).2⟩
 
 /-- Removal is the insertion of a tombstone: same guarantee. -/
 theorem remove_crash_bucket (key : Bytes) (b0 : Bytes) (fs : FS)
@@ -149,7 +152,7 @@ theorem remove_crash_bucket (key : Bytes) (b0 : Bytes) (fs : FS)
   rw [crash_bind]
   split
   · exact insert_crash_bucket cfg env cache key {} b0 fs hb n t
-  · have h := (wpD_run (insert_bucket_wp cfg env cache key {} b0 hb)).1
+  · have h := (wpD_run (insert_bucket_wp cfg env cache key {} b0 hb)).1.bucket
     generalize (run env (insert cfg cache key {}) fs) = rr at h ⊢
     obtain ⟨res, fs1, tr⟩ := rr
     cases res <;> (simp only [crash]; exact h)
@@ -211,5 +214,234 @@ theorem settled_cacache (b0 : Bytes) (rs : List Rec) (hW : ∀ x ∈ rs, x.WF) :
 
 /-- Non-vacuity: the hypotheses of the codec-level theorems are met by the empty bucket. -/
 example (c : Codec R M) (L : TornLaws c W) : c.Settled [] := L.toLaws.settled_nil
+
+/-! ### end to end: the two layers composed
+
+The crash invariant of the program level (`Growing`, Lemmas/Bucket) remembers that the record
+under construction carries the caller's time or a clock answer, so it is well-formed whenever the
+caller's options are (`mkRec_wf`), and the codec level applies to it.  The statements below speak
+about the filesystem a kill (or a fault plan) leaves behind and about what every lookup decodes
+from the key's bucket in it — no hypothesis on the hash function, none on the record. -/
+
+/-- What the bucket bytes `b'` found after an interrupted append to `b0` of the one record
+`mkRec key o tm` mean to a reader: exactly the old records, or exactly the old records followed by
+the new one; `tm` is the caller's time when one was given, and a `u128` in any case. -/
+def OldOrNew (key : Bytes) (o : WriteOpts) (b0 b' : Bytes) : Prop :=
+  ∃ tm, tm ≤ timeMax ∧ (∀ t, o.time = some t → tm = t) ∧
+    ((codec cfg).entries b' = (codec cfg).entries b0 ∨
+     (codec cfg).entries b' = (codec cfg).entries b0 ++ [mkRec key o tm])
+
+/-- From the crash invariant to the reader's view. -/
+theorem growing_oldOrNew (key : Bytes) (o : WriteOpts) (ho : OptsWF key o) (b0 : Bytes)
+    (hs : (codec cfg).Settled b0) (fs : FS) (hg : Growing cfg cache key o b0 fs) :
+    ∃ b', BucketIs fs (bucketPath cfg cache key) b' ∧ OldOrNew cfg key o b0 b' := by
+  obtain ⟨tm, k, hb, htm, hle⟩ := hg
+  exact ⟨_, hb, tm, hle ho.time, htm, torn_entries_cacache cfg b0 hs key o ho tm (hle ho.time) k⟩
+
+/-- Old-or-new records means old-or-new answers: every lookup, of any key, answers as before the
+write or as after the complete append; keys other than the one written answer as before. -/
+theorem OldOrNew.lookup {key : Bytes} {o : WriteOpts} {b0 b' : Bytes} (h : OldOrNew cfg key o b0 b')
+    (ho : OptsWF key o) (hs : (codec cfg).Settled b0) :
+    (∀ key', (codec cfg).find b' key' = (codec cfg).find b0 key' ∨
+      ∃ tm, tm ≤ timeMax ∧
+        (codec cfg).find b' key' = (codec cfg).find (b0 ++ (codec cfg).frame (mkRec key o tm)) key') ∧
+    (∀ key', key' ≠ key → (codec cfg).find b' key' = (codec cfg).find b0 key') := by
+  obtain ⟨tm, hle, _, h⟩ := h
+  have hwf := mkRec_wf key o tm ho hle
+  constructor
+  · intro key'
+    rcases h with h | h
+    · left; unfold Codec.find; rw [h]
+    · right
+      refine ⟨tm, hle, ?_⟩
+      unfold Codec.find
+      rw [h, (codec_laws cfg).entries_append_frame b0 _ hwf, ← hs]
+  · intro key' hk
+    unfold Codec.find
+    rcases h with h | h
+    · rw [h]
+    · rw [h, (codec cfg).findIn_append]
+      have hne : (codec cfg).key (mkRec key o tm) ≠ key' := fun e => hk e.symm
+      simp [Codec.findStep, hne]
+
+/-- The bucket-and-lookup statement all the theorems below instantiate. -/
+theorem growing_lookup (key : Bytes) (o : WriteOpts) (ho : OptsWF key o) (b0 : Bytes)
+    (hs : (codec cfg).Settled b0) (fs : FS) (hg : Growing cfg cache key o b0 fs) :
+    ∃ b', BucketIs fs (bucketPath cfg cache key) b' ∧
+      (∀ key', (codec cfg).find b' key' = (codec cfg).find b0 key' ∨
+        ∃ tm, tm ≤ timeMax ∧
+          (codec cfg).find b' key' = (codec cfg).find (b0 ++ (codec cfg).frame (mkRec key o tm)) key') ∧
+      (∀ key', key' ≠ key → (codec cfg).find b' key' = (codec cfg).find b0 key') := by
+  obtain ⟨b', hb, h⟩ := growing_oldOrNew cfg cache key o ho b0 hs fs hg
+  exact ⟨b', hb, h.lookup cfg ho hs⟩
+
+/-- **C04 for an index insertion, end to end.**  From any state whose bucket for `key` holds
+settled bytes `b0` (or is absent, `b0 = []`), an insertion with well-formed options killed on entry
+to any call `n`, the in-flight call torn at any length `t`, leaves a bucket `b'` that every reader
+decodes to exactly the old records or exactly the old records plus the new one. -/
+theorem insert_crash_entries (key : Bytes) (o : WriteOpts) (ho : OptsWF key o) (b0 : Bytes)
+    (hs : (codec cfg).Settled b0) (fs : FS) (hb : BucketIs fs (bucketPath cfg cache key) b0) (n t : Nat) :
+    ∃ b', BucketIs (crash env (insert cfg cache key o) fs n t) (bucketPath cfg cache key) b' ∧
+      OldOrNew cfg key o b0 b' :=
+  growing_oldOrNew cfg cache key o ho b0 hs _ (wpD_crash (insert_bucket_wp cfg env cache key o b0 hb) n t)
+
+/-- … hence a later lookup of any key answers exactly as before the insertion or exactly as after
+its completion (with the caller's time, or some `u128` clock time), and keys other than `key`
+answer as before. -/
+theorem insert_crash_lookup (key : Bytes) (o : WriteOpts) (ho : OptsWF key o) (b0 : Bytes)
+    (hs : (codec cfg).Settled b0) (fs : FS) (hb : BucketIs fs (bucketPath cfg cache key) b0) (n t : Nat) :
+    ∃ b', BucketIs (crash env (insert cfg cache key o) fs n t) (bucketPath cfg cache key) b' ∧
+      (∀ key', (codec cfg).find b' key' = (codec cfg).find b0 key' ∨
+        ∃ tm, tm ≤ timeMax ∧
+          (codec cfg).find b' key' = (codec cfg).find (b0 ++ (codec cfg).frame (mkRec key o tm)) key') ∧
+      (∀ key', key' ≠ key → (codec cfg).find b' key' = (codec cfg).find b0 key') :=
+  growing_lookup cfg cache key o ho b0 hs _ (wpD_crash (insert_bucket_wp cfg env cache key o b0 hb) n t)
+
+/-- The same under every fault plan (any calls failing, the append failing after any partial
+write). -/
+theorem insert_fault_lookup (key : Bytes) (o : WriteOpts) (ho : OptsWF key o) (b0 : Bytes)
+    (hs : (codec cfg).Settled b0) (fs : FS) (hb : BucketIs fs (bucketPath cfg cache key) b0)
+    (plan : Nat → Option Fault) :
+    ∃ b', BucketIs (runFault env plan (insert cfg cache key o) fs 0).2.1 (bucketPath cfg cache key) b' ∧
+      (∀ key', (codec cfg).find b' key' = (codec cfg).find b0 key' ∨
+        ∃ tm, tm ≤ timeMax ∧
+          (codec cfg).find b' key' = (codec cfg).find (b0 ++ (codec cfg).frame (mkRec key o tm)) key') ∧
+      (∀ key', key' ≠ key → (codec cfg).find b' key' = (codec cfg).find b0 key') :=
+  growing_lookup cfg cache key o ho b0 hs _ (wpD_fault (insert_bucket_wp cfg env cache key o b0 hb) plan 0).1
+
+/-- The crash invariant of a removal (`delete` = insertion of a tombstone with default options). -/
+theorem delete_bucket_wp (key : Bytes) (b0 : Bytes) {fs : FS}
+    (hb : BucketIs fs (bucketPath cfg cache key) b0) :
+    wpD env (Growing cfg cache key {} b0) (fun _ _ => True) (delete cfg cache key) fs := by
+  unfold delete
+  simp only [bind_eq, pure_eq]
+  apply wpD_bind
+  refine wpD_mono ?_ (wpD_withQ (insert_bucket_wp cfg env cache key {} b0 hb))
+  intro r fs1 ⟨hg, _⟩
+  cases r <;> exact ⟨hg, trivial⟩
+
+/-- **C04 for a removal, end to end**: killed at any `(n, t)`, every lookup answers as before the
+removal or as after the complete tombstone (any key valid UTF-8, as Rust's `&str` is). -/
+theorem remove_crash_lookup (key : Bytes) (hk : Json.utf8Valid key = true) (b0 : Bytes)
+    (hs : (codec cfg).Settled b0) (fs : FS) (hb : BucketIs fs (bucketPath cfg cache key) b0) (n t : Nat) :
+    ∃ b', BucketIs (crash env (delete cfg cache key) fs n t) (bucketPath cfg cache key) b' ∧
+      (∀ key', (codec cfg).find b' key' = (codec cfg).find b0 key' ∨
+        ∃ tm, tm ≤ timeMax ∧
+          (codec cfg).find b' key' = (codec cfg).find (b0 ++ (codec cfg).frame (mkRec key {} tm)) key') ∧
+      (∀ key', key' ≠ key → (codec cfg).find b' key' = (codec cfg).find b0 key') :=
+  growing_lookup cfg cache key {} (optsWF_default hk) b0 hs _
+    (wpD_crash (delete_bucket_wp cfg env cache key b0 hb) n t)
+
+theorem remove_fault_lookup (key : Bytes) (hk : Json.utf8Valid key = true) (b0 : Bytes)
+    (hs : (codec cfg).Settled b0) (fs : FS) (hb : BucketIs fs (bucketPath cfg cache key) b0)
+    (plan : Nat → Option Fault) :
+    ∃ b', BucketIs (runFault env plan (delete cfg cache key) fs 0).2.1 (bucketPath cfg cache key) b' ∧
+      (∀ key', (codec cfg).find b' key' = (codec cfg).find b0 key' ∨
+        ∃ tm, tm ≤ timeMax ∧
+          (codec cfg).find b' key' = (codec cfg).find (b0 ++ (codec cfg).frame (mkRec key {} tm)) key') ∧
+      (∀ key', key' ≠ key → (codec cfg).find b' key' = (codec cfg).find b0 key') :=
+  growing_lookup cfg cache key {} (optsWF_default hk) b0 hs _
+    (wpD_fault (delete_bucket_wp cfg env cache key b0 hb) plan 0).1
+
+/-- What a keyed commit records is well-formed when the caller's options are and the data's
+length is a `u64`: the integrity is the declared one or the computed one, the size the declared
+one or the byte count. -/
+theorem recordedOpts_wf {key : Bytes} {o : WriteOpts} (ho : OptsWF key o) (data : Bytes)
+    (hlen : data.length ≤ Rec.u64Max) : OptsWF key (recordedOpts cfg o data) := by
+  refine ⟨ho.key, ho.time, ?_, ?_, ho.md⟩
+  · intro n hn
+    simp only [recordedOpts, Option.some.injEq] at hn
+    subst hn
+    cases hz : o.size with
+    | none => simpa using hlen
+    | some m => simpa using ho.size m hz
+  · intro s hsri
+    simp only [recordedOpts, Option.some.injEq] at hsri
+    subst hsri
+    cases hz : o.sri with
+    | none => simpa using Sri.compute_wf cfg.H _ data
+    | some s' => simpa using ho.sri s' hz
+
+/-- **C04 for the whole keyed write, end to end** (open, any chunks, commit; both flavours).
+From a valid store whose bucket for `key` holds settled bytes `b0`, with well-formed options and
+data of `u64` length: after a kill on entry to any call `n`, the in-flight call torn at any `t`,
+the content store is still valid AND the key's bucket `b'` answers every lookup exactly as before
+the write or exactly as after the complete append of the one record the write appends on success,
+`mkRec key (recordedOpts cfg o chunks.flatten) tm` (`keyed_write_ok_is_new`); keys other than
+`key` answer as before. -/
+theorem keyed_write_crash_lookup (fl : Flavour) (key : Bytes) (o : WriteOpts) (ho : OptsWF key o)
+    (chunks : List Bytes) (hlen : chunks.flatten.length ≤ Rec.u64Max) (b0 : Bytes)
+    (hs : (codec cfg).Settled b0) (fs : FS) (hv : ContentValid cfg cache fs)
+    (hb : BucketIs fs (bucketPath cfg cache key) b0) (n t : Nat) :
+    ContentValid cfg cache (crash env (writeStream cfg cache fl (some key) o chunks) fs n t) ∧
+    ∃ b', BucketIs (crash env (writeStream cfg cache fl (some key) o chunks) fs n t)
+        (bucketPath cfg cache key) b' ∧
+      (∀ key', (codec cfg).find b' key' = (codec cfg).find b0 key' ∨
+        ∃ tm, tm ≤ timeMax ∧ (codec cfg).find b' key' = (codec cfg).find
+          (b0 ++ (codec cfg).frame (mkRec key (recordedOpts cfg o chunks.flatten) tm)) key') ∧
+      (∀ key', key' ≠ key → (codec cfg).find b' key' = (codec cfg).find b0 key') :=
+  have h := wpD_crash (writeStream_keyed_wp_rec cfg env cache fl key o chunks b0 hv hb) n t
+  ⟨h.1, growing_lookup cfg cache key _ (recordedOpts_wf cfg ho _ hlen) b0 hs _ h.2⟩
+
+/-- The records-level form: exactly the old records, or exactly the old ones plus the new one. -/
+theorem keyed_write_crash_entries (fl : Flavour) (key : Bytes) (o : WriteOpts) (ho : OptsWF key o)
+    (chunks : List Bytes) (hlen : chunks.flatten.length ≤ Rec.u64Max) (b0 : Bytes)
+    (hs : (codec cfg).Settled b0) (fs : FS) (hv : ContentValid cfg cache fs)
+    (hb : BucketIs fs (bucketPath cfg cache key) b0) (n t : Nat) :
+    ∃ b', BucketIs (crash env (writeStream cfg cache fl (some key) o chunks) fs n t)
+        (bucketPath cfg cache key) b' ∧ OldOrNew cfg key (recordedOpts cfg o chunks.flatten) b0 b' :=
+  growing_oldOrNew cfg cache key _ (recordedOpts_wf cfg ho _ hlen) b0 hs _
+    (wpD_crash (writeStream_keyed_wp_rec cfg env cache fl key o chunks b0 hv hb) n t).2
+
+/-- The same under every fault plan. -/
+theorem keyed_write_fault_lookup (fl : Flavour) (key : Bytes) (o : WriteOpts) (ho : OptsWF key o)
+    (chunks : List Bytes) (hlen : chunks.flatten.length ≤ Rec.u64Max) (b0 : Bytes)
+    (hs : (codec cfg).Settled b0) (fs : FS) (hv : ContentValid cfg cache fs)
+    (hb : BucketIs fs (bucketPath cfg cache key) b0) (plan : Nat → Option Fault) :
+    ContentValid cfg cache (runFault env plan (writeStream cfg cache fl (some key) o chunks) fs 0).2.1 ∧
+    ∃ b', BucketIs (runFault env plan (writeStream cfg cache fl (some key) o chunks) fs 0).2.1
+        (bucketPath cfg cache key) b' ∧
+      (∀ key', (codec cfg).find b' key' = (codec cfg).find b0 key' ∨
+        ∃ tm, tm ≤ timeMax ∧ (codec cfg).find b' key' = (codec cfg).find
+          (b0 ++ (codec cfg).frame (mkRec key (recordedOpts cfg o chunks.flatten) tm)) key') ∧
+      (∀ key', key' ≠ key → (codec cfg).find b' key' = (codec cfg).find b0 key') :=
+  have h := (wpD_fault (writeStream_keyed_wp_rec cfg env cache fl key o chunks b0 hv hb) plan 0).1
+  ⟨h.1, growing_lookup cfg cache key _ (recordedOpts_wf cfg ho _ hlen) b0 hs _ h.2⟩
+
+/-- The "new" state of the three theorems above is the state a successful write leaves: when the
+healthy run answers ok, the bucket is `b0` followed by the whole frame of that very record. -/
+theorem keyed_write_ok_is_new (fl : Flavour) (key : Bytes) (o : WriteOpts) (chunks : List Bytes)
+    (b0 : Bytes) (fs : FS) (hv : ContentValid cfg cache fs)
+    (hb : BucketIs fs (bucketPath cfg cache key) b0) (sri : Integrity)
+    (hok : (run env (writeStream cfg cache fl (some key) o chunks) fs).1 = .ok sri) :
+    ∃ tm, (∀ t, o.time = some t → tm = t) ∧
+      (run env (writeStream cfg cache fl (some key) o chunks) fs).2.1.get (bucketPath cfg cache key) =
+        some (.file (b0 ++ (codec cfg).frame (mkRec key (recordedOpts cfg o chunks.flatten) tm))) := by
+  obtain ⟨hsp, hbp⟩ := (wpD_run (writeStream_keyed_wp_rec cfg env cache fl key o chunks b0 hv hb)).2
+  obtain ⟨tm, htm, hget, _⟩ := hbp sri hok
+  have hsri := (hsp sri hok).1
+  simp only [Option.isSome_some, if_true] at hsri
+  subst hsri
+  exact ⟨tm, htm, hget⟩
+
+/-- Non-vacuity of the end-to-end theorems: the empty (absent) bucket in the empty filesystem,
+default options, an ASCII key — every hypothesis of `insert_crash_lookup` / `remove_crash_lookup`
+is met, for every kill point. -/
+example (n t : Nat) :
+    ∃ b', BucketIs (crash env (delete cfg cache [107, 101, 121]) FS.empty n t)
+        (bucketPath cfg cache [107, 101, 121]) b' ∧
+      (∀ key', (codec cfg).find b' key' = (codec cfg).find [] key' ∨
+        ∃ tm, tm ≤ timeMax ∧ (codec cfg).find b' key' =
+          (codec cfg).find ([] ++ (codec cfg).frame (mkRec [107, 101, 121] {} tm)) key') ∧
+      (∀ key', key' ≠ [107, 101, 121] → (codec cfg).find b' key' = (codec cfg).find [] key') :=
+  remove_crash_lookup cfg env cache [107, 101, 121] (by decide) [] (codec_laws cfg).settled_nil
+    FS.empty (Or.inr ⟨rfl, rfl⟩) n t
+
+/-- … and of `keyed_write_crash_lookup`: the empty filesystem is a valid store with an absent
+(hence empty, settled) bucket; default options, an ASCII key, any chunks of `u64` total length. -/
+example (fl : Flavour) (chunks : List Bytes) (hlen : chunks.flatten.length ≤ Rec.u64Max) (n t : Nat) :
+    ContentValid cfg cache (crash env (writeStream cfg cache fl (some [107, 101, 121]) {} chunks) FS.empty n t) :=
+  (keyed_write_crash_lookup cfg env cache fl [107, 101, 121] {} (optsWF_default (by decide)) chunks hlen []
+    (codec_laws cfg).settled_nil FS.empty (by intro a hexd b _ h; simp [FS.empty] at h) (Or.inr ⟨rfl, rfl⟩) n t).1
 
 end Cacache.C04
